@@ -41,10 +41,11 @@ def cfg(inst, q, export):
     tfs, trade, warm, n, fast, chunk = inst           # chunk: what the model derives itself (gcd of all route timeframes)
     t = lambda b: "TRUE" if b else "FALSE"
     q = tuple(q) + (False,) * (4 - len(q))
+    off, grid = (q[4], q[5]) if len(q) > 4 else (0, True)
     return ("SPECIFICATION %s\nVIEW View\nCHECK_DEADLOCK FALSE\n" % ("Spec" if export else "SpecM") +
             "CONSTANTS TFs = {%s} TradeTF = %d Warm = %d N = %d MaxFills = 2 Fast = %s\n"
-            "QStale = %s QEmptyRead = %s QPartialChunk = %s QChunkTrading = %s Export = %s\n"
-            % (",".join(map(str, tfs)), trade, warm, n, t(fast), t(q[0]), t(q[1]), t(q[2]), t(q[3]), t(export))
+            "QStale = %s QEmptyRead = %s QPartialChunk = %s QChunkTrading = %s EpochOffset = %d QEpochGrid = %s Export = %s\n"
+            % (",".join(map(str, tfs)), trade, warm, n, t(fast), t(q[0]), t(q[1]), t(q[2]), t(q[3]), off, t(grid), t(export))
             + ("" if export else "".join("INVARIANT %s\n" % i for i in INVS)))
 
 
@@ -113,7 +114,7 @@ ROUTESETS = [
     ('15m', ['5m']), ('1h', ['45m']), ('1h', ['15m']), ('45m', ['30m']), ('5m', ['3m']), ('30m', ['45m']),
     ('15m', ['5m', '1h']), ('4h', ['1h', '45m']), ('15m', [], '5m'), ('1h', ['15m'], '45m'), ('3m', ['1m']),
 ]
-BIGSETS = [('1m', ['1D']), ('2h', ['1D']), ('15m', ['12h', '1D'])]
+BIGSETS = [('1m', ['4h', '3D']), ('4h', ['3D']), ('1m', ['1D']), ('2h', ['1D']), ('15m', ['12h', '1D']), ('1h', ['1W'])]
 
 
 def lcm(xs):
@@ -129,7 +130,7 @@ def random_cases(ctx, rng, n_cases, first_id):
     for c in range(n_cases):
         rs = ROUTESETS[c % len(ROUTESETS)] if c < 4 * len(ROUTESETS) else rng.choice(ROUTESETS)
         if c % 54 in (16, 43):
-            rs = BIGSETS[(c // 27) % len(BIGSETS)]
+            rs = BIGSETS[(c // 27) % ctx.pick(4, len(BIGSETS))]
         ttf, dtfs = rs[0], rs[1]
         other = rs[2] if len(rs) > 2 else None            # a second symbol traded on another timeframe
         two = other is None and (c % 5 == 4) and TFMIN[ttf] <= 15
@@ -139,7 +140,10 @@ def random_cases(ctx, rng, n_cases, first_id):
         L = lcm(mins)
         big = max(mins)
         W = 0 if (c + c // len(ROUTESETS)) % 3 == 0 else L * rng.choice([1, 1, 2])
-        if big >= 720:
+        if big >= 4320:                                            # 3D / 1W: the session start (2021-01-01 + warm-up) is
+            W = big * rng.choice([2, 3])                           # NOT on the epoch grid of these timeframes
+            N = TFMIN[ttf] * rng.randint(2, 5) + rng.randint(200, 700)
+        elif big >= 720:
             N = big + rng.randint(1, 400)
             W = 0 if c % 2 else L
         elif big >= 120:
@@ -161,6 +165,10 @@ def random_cases(ctx, rng, n_cases, first_id):
                     gen=dict(gap_p=rng.choice([0.1, 0.3, 0.5]), flat_p=rng.choice([0.05, 0.2]), step=rng.choice([2, 3]),
                              wick=rng.choice([1, 2, 3]), start=200, floor=40),
                     obs_every=every, full_samples=sorted(rng.sample(range(1, steps + 1), min(4, steps))), src='T')
+        if c % 6 == 2:            # price level ~30000 with gaps of 0.125 / 0.25 (below numpy's default closeness tolerance)
+            case['unit'] = 0.125
+            case['gen'] = dict(gap_p=rng.choice([0.3, 0.5]), flat_p=0.1, step=2, wick=rng.choice([1, 2]), start=240000, floor=1000)
+            case['balance'] = 10 ** 7
         case['chunk'] = chunk_of(case)
         cases.append(case)
     return cases
@@ -258,7 +266,7 @@ def run(ctx):
     rng = random.Random(ctx.seed)
     ctx.assumptions += ["session starts and warm-up lengths are aligned to every route timeframe (the property's assumption)",
                         "candles are on an integer lattice (exact in float64); timestamps are minute-aligned",
-                        "timeframes 3D/1W/1M are not driven (runs would need > 4000 minutes per window)",
+                        "3D is driven in quick (warm-up of 2-3 windows, reads at a stride), 1W in thorough only, 1M not at all",
                         "large timeframes (>= 12h) are read at sampled strategy steps, at every hook and at the end"]
     # ------------------------------------------------------------ M
     insts = instances(ctx)
@@ -273,10 +281,15 @@ def run(ctx):
             variants += [("emptyread-only", (False, True, False))]
         if partial:
             variants += [("partialchunk-only", (False, False, True))]
+        if inst in insts[:2] or inst == insts[3]:
+            # a session whose first candle is off the epoch grid of the timeframes (3D / 1W): the code's partial-candle
+            # update (epoch grid) breaks the property, sizing it from the store does not
+            variants += [("epoch-grid-partial-candle", (False, False, False, False, 1, True)),
+                         ("repaired-off-the-epoch-grid", (False, False, False, False, 1, False))]
         if fast and any(T % inst[1] != 0 for T in inst[0]):
             variants += [("chunk-of-trading-routes-only", (False, False, False, True))]
         for name, q in variants:
-            jobs.append(dict(module="CandleStore", cfg_text=cfg(inst, q, False), workers=1, coverage=(name == "repaired"),
+            jobs.append(dict(module="CandleStore", cfg_text=cfg(inst, q, False), workers=1, coverage=name.startswith("repaired"),
                              timeout=900))
             labels.append((inst, name, q))
     results = tlc.run_parallel(jobs, max_procs=12)
@@ -284,7 +297,7 @@ def run(ctx):
     for (inst, name, q), r in zip(labels, results):
         lab = "CandleStore %s TFs=%s trade=%d warm=%d N=%d fast=%s chunk=%d" % ((name,) + inst)
         ctx.add_tlc(r, lab)
-        if name == "repaired":
+        if name.startswith("repaired"):
             if r.violation:
                 raise Machinery("CandleStore.tla (repaired constants) violates %s for %r\n%s" % (
                     r.violation["name"], inst, r.violation["trace"][:3000]))
@@ -351,6 +364,11 @@ def run(ctx):
                 break
     samples.append({"kind": "helper", "events": helpers[1]['ev'][:2]})
     tfs_read = sorted({e['T'] for t in traces for e in t['ev'] if e['k'] == 'read'})
+    for need in (4320,):
+        if need not in tfs_read:
+            raise Machinery("vacuity: no run read a %d-minute timeframe" % need)
+    if not any(t['case'].get('unit') == 0.125 and t['hdr']['mode'] == 'fast' and t['hdr']['step'] > 1 for t in traces):
+        raise Machinery("vacuity: no fast-mode run (chunk > 1) on the 30000-level series with sub-tolerance gaps")
     rclasses = {m: {c: 0 for c in CLASSES} for m in ('step', 'fast')}
     for t in traces:
         for c in route_classes(t['case']):
